@@ -49,4 +49,14 @@ func init() {
 		},
 		Components: libComponents, QuickMS: 30000, ThoroughMS: 1200000, MaxFile: 16 << 10,
 	}
+	cfgs["C15"] = &propCfg{
+		ID: "C15", Engine: "lib", Level: "exploration",
+		Rule: "case = one operation history on a fresh registry: 0-12 registrations (Add, AddFunc, AddRegexp, AddFuncRegexp, and in 1/12 of histories AddCmd/AddCmdRegexp with a real helper process) over overlapping literal types and patterns, interleaved with 10-30 queries (Match+call, Minify, MinifyMimetype, Bytes, String, Reader) with media type strings varying case, surrounding spaces, 0-3 parameters with and without values and spaces; every query is compared with a 30-line reference model (literal first, else first-registered matching pattern, else ErrNotExist and zero bytes written; params after the first ';' as a map; Match answers what a call would use; re-registration replaces). Strings outside the grammar only: no panic, Match and Minify agree. distinct = distinct histories; non-trivial = at least two registrations.",
+		Assumptions: []string{
+			"no schedule or fault dimension exists in this property: this is the model-based (operation history vs. reference model) half of the technique only",
+			"the model of the media type grammar is `type/subtype( *; *k( *= *v)?)*` with optional surrounding spaces; other strings are judged only for Match/Minify agreement",
+			"command minifiers run real helper processes (the test binary in helper mode), not simulated",
+		},
+		Components: libComponents, QuickMS: 15000, ThoroughMS: 600000,
+	}
 }
